@@ -136,7 +136,7 @@ def analyse_listing(repo: Repo, run: Run, interp, name: str):
         relevant.extend(e for e in eff if sym.root_of(e.path if e.path is not None else e.base) == SELF)
         if body is None:
             raise AnalysisError(f"{name}: predicate is not a lambda / inlinable method: {sym.pretty(fnt)[:80]}")
-        nb = N(body)
+        nb = N(normal.expand_membership(rec, body))
         # (read off the normal form: there the element is a plain bound variable, not a term that embeds the source pipeline)
         reads = sorted({x.a[1] for x in sym.walk(nb) if x.op == "attr" and x.a[0] == SELF and not str(x.a[1]).startswith("filter_")})
         if reads:
